@@ -258,6 +258,64 @@ theorem load_state_dict_is_model (c : Clock.Ctl) (d : Clock.Saved) (r : Clock.R3
 '''
 
 
+CTL_METHODS = ["resume", "pause", "shutdown", "activate", "is_resume", "is_pause", "is_shutdown", "is_active"]
+
+CTL_TIE = r'''/-- The controller's two events as the protocol model holds them. -/
+def ofProto (s : Proto.St) : TC := { shutdown_event := s.shutdown, resume_event := s.resume }
+
+macro "ctl_simp" : tactic => `(tactic|
+  simp [resume, pause, shutdown, activate, is_resume, is_pause, is_shutdown, is_active, getS, modifyS, ofProto,
+    Proto.run, Proto.step, Proto.cstep, Proto.Act.thread, Proto.notifyAll, StateT.run, bind, StateT.bind, get, getThe,
+    MonadStateOf.get, StateT.get, pure, StateT.pure, set, StateT.set, modify, modifyGet, MonadStateOf.modifyGet,
+    StateT.modifyGet, failure, StateT.failure, Alternative.failure, *])
+
+/-- **`shutdown()` sets the resume event before the shutdown event, and does nothing the second time** - the
+order `Proto` gives the control thread (`cSetResume` at `sdSet`, then `cSetShutdown`), which is what
+`shutdown_wakes` (a thread blocked in a pause is always woken by a shutdown) rests on. -/
+theorem shutdown_is_proto (s : Proto.St) (hpc : s.ctl.pc = .sdSet) (hsd : s.shutdown = false) :
+    ∃ s', Proto.run s [.cSetResume, .cSetShutdown] = some s' ∧
+      (shutdown.run (ofProto s, [])).map (fun r => (r.2.1.resume_event, r.2.1.shutdown_event, r.2.1.log)) =
+        some (s'.resume, s'.shutdown, ["set resume_event", "set shutdown_event"]) := by
+  refine ⟨_, by simp [Proto.run, Proto.step, Proto.cstep, Proto.Act.thread, hpc]; rfl, ?_⟩
+  ctl_simp
+
+theorem shutdown_twice_is_noop (st : TC) (h : st.shutdown_event = true) :
+    shutdown.run (st, []) = some ((), (st, [])) := by
+  ctl_simp
+
+/-- **`pause()` refuses after shutdown and clears the resume event under the resume lock** (`cAcquire`,
+`cClearResume`, `cRelease` of `Proto`; `no_pause_after_shutdown`). -/
+theorem pause_is_proto (s : Proto.St) (hpc : s.ctl.pc = .tpLock) (hh : s.ctl.holds = false)
+    (hall : s.thr.all (fun x => !x.holds) = true) (hsd : s.shutdown = false) :
+    ∃ s', Proto.run s [.cAcquire, .cClearResume, .cRelease] = some s' ∧
+      (pause.run (ofProto s, [])).map (fun r => (r.2.1.resume_event, r.2.1.shutdown_event, r.2.1.log)) =
+        some (s'.resume, s'.shutdown, ["acquire resume_lock", "clear resume_event", "release resume_lock"]) := by
+  refine ⟨_, by simp [Proto.run, Proto.step, Proto.cstep, Proto.Act.thread, hpc, hh, hall]; rfl, ?_⟩
+  ctl_simp
+
+theorem pause_refused_after_shutdown (st : TC) (h : st.shutdown_event = true) : pause.run (st, []) = none := by
+  ctl_simp
+
+theorem resume_sets_event (st : TC) (h : st.shutdown_event = false) :
+    (resume.run (st, [])).map (fun r => (r.2.1.resume_event, r.2.1.shutdown_event)) = some (true, false) := by
+  ctl_simp
+
+theorem resume_refused_after_shutdown (st : TC) (h : st.shutdown_event = true) : resume.run (st, []) = none := by
+  ctl_simp
+
+'''
+
+
+def generate_ctl(repo: Path) -> str:
+    """`ThreadController` (two events, one lock) as a Lean state machine that logs its primitive writes, and the
+    theorems tying `shutdown` / `pause` / `resume` to the control actions of `Pamiq.Proto`."""
+    import translate_class as TCm
+    c = TCm.ClassTr(repo, "thread/thread_control.py", "ThreadController", skip_fields=())
+    c.log_writes = True
+    return ("import Pamiq.Model.Proto\nnamespace Pamiq.GenCtl\nopen Pamiq\n\n" + c.generate(CTL_METHODS) + "\n"
+            + CTL_TIE + "\nend Pamiq.GenCtl\n")
+
+
 def generate_class(repo: Path) -> str:
     """`TimeController` as a Lean state machine + the theorems tying every method to `Pamiq.Clock`."""
     import translate_class as TCm
@@ -266,30 +324,33 @@ def generate_class(repo: Path) -> str:
             + CLASS_TIE + "\nend Pamiq.GenTC\n")
 
 
-def check_class(res: SuiteResult, repo: Path) -> None:
+def check_class(res: SuiteResult, repo: Path, which: str = "TimeController") -> None:
+    gen, ns, model, nmeth = {"TimeController": (generate_class, "GenTC", "Pamiq.Clock", len(CLASS_METHODS)),
+                             "ThreadController": (generate_ctl, "GenCtl", "Pamiq.Proto", len(CTL_METHODS))}[which]
     try:
-        text = generate_class(repo)
+        text = gen(repo)
     except T.Untranslatable as e:
         res.evaluations += 1
-        res.hit("static-tie-unavailable:TimeController")
-        res.extra.setdefault("unavailable", []).append(f"TimeController: {e}")
+        res.hit("static-tie-unavailable:" + which)
+        res.extra.setdefault("unavailable", []).append(f"{which}: {e}")
         return
     names = re.findall(r"^theorem (\w+)", text, re.M)
     with tempfile.TemporaryDirectory(prefix="pamiq-verif.") as d:
         f = Path(d) / "GenTC.lean"
-        f.write_text(text + "\n" + "\n".join(f"#print axioms Pamiq.GenTC.{n}" for n in names) + "\n")
+        f.write_text(text + "\n" + "\n".join(f"#print axioms Pamiq.{ns}.{n}" for n in names) + "\n")
         proc = subprocess.run(["lake", "env", "lean", str(f)], cwd=LEAN_DIR, capture_output=True, text=True)
         log = proc.stdout + proc.stderr
     if proc.returncode == 0:
         for n in names:
             res.evaluations += 1
-            res.hit("tied:TimeController." + n.replace("_is_model", ""))
-            res.nontrivial.add("TimeController." + n)
+            res.hit(f"tied:{which}." + n.replace("_is_model", ""))
+            res.nontrivial.add(f"{which}." + n)
         for l in log.splitlines():
             m = re.search(r"depends on axioms: \[(.*)\]", l)
             if m and not set(a.strip() for a in m.group(1).split(",")) <= {"propext", "Classical.choice", "Quot.sound"}:
                 res.disagreements.append(Disagreement(res.name, "generated tie theorem uses non-standard axioms: " + l, {"gentie": l}))
-        res.extra["class_translation"] = f"TimeController: {len(CLASS_METHODS)} methods translated, {len(names)} tie theorems checked"
+        res.extra.setdefault("class_translation", []).append(
+            f"{which}: {nmeth} methods translated, {len(names)} tie theorems checked")
         return
     # which theorems fail? map error lines to the enclosing theorem
     lines = text.splitlines()
@@ -308,13 +369,12 @@ def check_class(res: SuiteResult, repo: Path) -> None:
     res.evaluations += 1
     if other:
         # the generated definitions themselves do not elaborate: the class left the translatable subset
-        res.hit("static-tie-unavailable:TimeController")
-        res.extra.setdefault("unavailable", []).append("TimeController: generated definitions rejected: " + other[0])
+        res.hit("static-tie-unavailable:" + which)
+        res.extra.setdefault("unavailable", []).append(f"{which}: generated definitions rejected: " + other[0])
         return
     res.disagreements.append(Disagreement(
-        res.name, "`time.py:TimeController` as translated from the source is no longer equal to the transition "
-        f"functions of Pamiq.Clock: Lean rejects {sorted(failing)}", {"gentie": {"class": "TimeController",
-                                                                                "failing": sorted(failing)}}))
+        res.name, f"`{which}` as translated from the source no longer agrees with {model}: Lean rejects "
+        f"{sorted(failing)}", {"gentie": {"class": which, "failing": sorted(failing)}}))
 
 
 def generate(repo: Path, props: tuple[str, ...] | None = None):
@@ -356,7 +416,9 @@ def suite_for(*props: str):
                                "this run and proved equal to the model's definitions for all inputs (Lean checks the "
                                "generated file on the spot); non-trivial = every function tied")
         if "C06" in props:
-            check_class(res, Path(REPO))
+            check_class(res, Path(REPO), "TimeController")
+        if "C02" in props:
+            check_class(res, Path(REPO), "ThreadController")
         text, parts, done, skipped = generate(Path(REPO), props)
         for fn, why in skipped:
             res.evaluations += 1
@@ -413,6 +475,10 @@ if __name__ == "__main__":
         out2.write_text("/- GENERATED by harness/gentie.py (translate_class.py) from /repo's time.py (reference copy of "
                         "what every C06 run re-creates and re-checks; do not edit). -/\n" + generate_class(Path(REPO)))
         print("written", out2)
+        out3 = Path(LEAN_DIR) / "Pamiq" / "Gen" / "ThreadControllerTie.lean"
+        out3.write_text("/- GENERATED by harness/gentie.py (translate_class.py) from /repo's thread_control.py (reference "
+                        "copy of what every C02 run re-creates and re-checks; do not edit). -/\n" + generate_ctl(Path(REPO)))
+        print("written", out3)
         out = Path(LEAN_DIR) / "Pamiq" / "Gen" / "DecisionsTie.lean"
         out.parent.mkdir(exist_ok=True)
         out.write_text("/- GENERATED by harness/gentie.py from /repo's source (reference copy of what every run "
